@@ -48,11 +48,42 @@ def strat_case(draw, tier):
             "scalar_k": draw(st.floats(0.2, 0.8))}
 
 
-def _ladder(pricer, spot, T, nk):
+def _ladder(pricer, spot, T, nk, carry=0.0):
+    """Strikes K = S0 exp(carry + u), u on the inner 40 % of [-delta, delta] (delta = half-width of the pricer's range).
+
+    The pricer's range [a, b] = c1 -+ delta is that of X_T; the expansion variable is y = log(S0/K) + (r-d)T + X_T, so its
+    law sits at least 0.6*delta (6 'standard deviations' for L=10) inside [a, b] exactly when |log(K/S0) - (r-d)T| <=
+    0.4*delta: the ladder is centred on the forward, not on the spot (the range itself ignores the carry (r-d)T).
+    Strikes whose log-moneyness log(S0/K) leaves the inner 95 % of [a, b] are dropped ("strike inside the range")."""
     a, b = pricer._interval_a_b(t=T)
-    lo, hi = 0.4 * a, 0.4 * b  # inner 40 % of the range: next to its ends the COS expansion has boundary errors
-    ks = spot * np.exp(np.linspace(lo, hi, nk))
-    return ks
+    delta = 0.5 * (b - a)
+    logk = carry + np.linspace(-0.4 * delta, 0.4 * delta, nk)
+    keep = (-logk >= 0.95 * a) & (-logk <= 0.95 * b) if a < 0 < b else np.ones(nk, dtype=bool)
+    if np.count_nonzero(keep) < 3:
+        return np.array([np.nan])
+    return spot * np.exp(logk[keep])
+
+
+def _atom(spec, T):
+    """mass of the atom of X_T (finite-activity pure-jump laws only: CGMY with y<0)"""
+    if spec["family"] == "cgmy" and spec["params"]["y"] < 0:
+        p = spec["params"]
+        lam = p["c"] * math.gamma(-p["y"]) * (p["g"] ** p["y"] + p["m"] ** p["y"])
+        return math.exp(-lam * T)
+    return 0.0
+
+
+def _strip_edge(spec):
+    """sup of the s with E[exp(s X_T)] finite (inf for Gaussian-type tails)"""
+    p = spec["params"]
+    if spec["family"] == "cgmy":
+        return p["m"]
+    if spec["family"] == "hem":
+        return p["eta1"]
+    if spec["family"] == "vg":
+        s2 = p["sigma"] ** 2
+        return math.sqrt(p["theta"] ** 2 + 2 * s2 / p["nu"]) / s2 - p["theta"] / s2
+    return float("inf")
 
 
 def body_arbitrage(case):
@@ -65,7 +96,7 @@ def body_arbitrage(case):
     spot = e["spot"]
     br = branch_of(spec)
     p1, p2 = COSPricer(model, n=10_000, l=10), COSPricer(model, n=40_000, l=20)
-    ks = _ladder(p1, spot, T, case["nk"])
+    ks = _ladder(p1, spot, T, case["nk"], (spec["exp"]["r"] - spec["exp"]["d"]) * T)
     if not np.all(np.isfinite(ks)) or ks[0] <= 0 or np.any(np.diff(ks) <= 0):
         return [Violation("REJECTED", "degenerate strike ladder")]
     tol = 1e-7 * max(spot, float(ks[-1]))
@@ -102,15 +133,27 @@ def body_arbitrage(case):
     if eps_dig > 1e-4:
         out.append(Violation(f"LABEL:digital-not-converged/{br}"))
     else:
-        tol_d = 1e-7 + 5 * eps_dig
+        # a law with an atom of mass m (finite-activity pure-jump) has a discontinuous distribution function: its cosine
+        # series overshoots by up to ~9 % of m next to the jump (Gibbs) whatever n is, and the sweep does not see it
+        tol_d = 1e-7 + 5 * eps_dig + 0.1 * _atom(spec, T)
         if np.any(dig < -tol_d) or np.any(dig > df + tol_d) or np.any(np.diff(dig) > tol_d):
             out.append(Violation(f"C18/cos/{br}/digital-not-a-decreasing-discounted-probability",
                                  f"{dig} df={df} (measured truncation error {eps_dig:.2g}); {detail}"))
-        k0 = ks[len(ks) // 2]
+        # digital = -dC/dK.  C is convex in K, so without any smoothness assumption
+        #   -(C(k+h)-C(k))/h <= digital(k) <= -(C(k)-C(k-h))/h   (one-sided slopes bracket the derivative);
+        # where the central differences at h and h/2 agree (the law is smooth at that scale) the digital must equal them
+        mid = len(ks) // 2
+        k0 = float(ks[mid])
         hk = k0 * min(1e-3, 0.02 * math.sqrt(max(float(model.cumulant.cumulant2(T)), 1e-12)))
-        dnum = -(float(p1.call(np.array([k0 + hk]), T)[0]) - float(p1.call(np.array([k0 - hk]), T)[0])) / (2 * hk)
-        if abs(dnum - dig[len(ks) // 2]) > 1e-4 + 5 * eps_dig:
-            out.append(Violation(f"C18/cos/{br}/digital-is-not-minus-dC-dK", f"{dig[len(ks) // 2]} vs {dnum}; {detail}"))
+        cm = np.asarray(p1.call(np.array([k0 - hk, k0 - hk / 2, k0, k0 + hk / 2, k0 + hk]), T), dtype=float)
+        t_slope = 4 * max(sweep, 1e-9) * max(spot, k0) / hk + 5 * eps_dig + 1e-7 + 0.1 * _atom(spec, T)
+        right, left = -(cm[4] - cm[2]) / hk, -(cm[2] - cm[0]) / hk
+        if not right - t_slope <= dig[mid] <= left + t_slope:
+            out.append(Violation(f"C18/cos/{br}/digital-outside-the-one-sided-slopes-of-the-call",
+                                 f"digital {dig[mid]} not in [{right}, {left}] +- {t_slope:.2g}; {detail}"))
+        d1, d2 = -(cm[4] - cm[0]) / (2 * hk), -(cm[3] - cm[1]) / hk
+        if abs(d1 - d2) <= 2e-5 and abs(d2 - dig[mid]) > 1e-4 + 5 * eps_dig:
+            out.append(Violation(f"C18/cos/{br}/digital-is-not-minus-dC-dK", f"{dig[mid]} vs {d2} (h) and {d1} (2h); {detail}"))
     # scalar strike gives the same as the vector
     ksc = float(ks[0] + case["scalar_k"] * (ks[-1] - ks[0]))
     c_s = float(np.asarray(p1.call(np.array([ksc]), T)).ravel()[0])
@@ -182,7 +225,7 @@ def body_cross(case):
     spot = spec["exp"]["spot"]
     br = branch_of(spec)
     p1, p2 = COSPricer(model, n=10_000, l=10), COSPricer(model, n=40_000, l=20)
-    ks = _ladder(p1, spot, T, case["nk"])
+    ks = _ladder(p1, spot, T, case["nk"], (spec["exp"]["r"] - spec["exp"]["d"]) * T)
     if not np.all(np.isfinite(ks)) or ks[0] <= 0:
         return [Violation("REJECTED", "degenerate strike ladder")]
     calls = np.asarray(p1.call(ks, T), dtype=float)
@@ -223,6 +266,10 @@ def body_cross(case):
         raise
     # Carr-Madan: the damping exp(-alpha k) amplifies the quadrature error like K^-alpha at small strikes (a probe
     # showed 1e-3*spot at K = 0.08*spot): compare on K >= 0.25*spot only
+    # and the integrand psi(v) has a singularity at distance (strip edge - (1+alpha)) from the real axis: the fixed step
+    # eta = 0.25 resolves it only when that distance is >= 1 (at 0.5 the observed error is 1.3e-3*spot)
+    if _strip_edge(spec) - (1 + fft.alpha) < 1.0:
+        return out + [Violation("LABEL:fft-integrand-singularity-closer-than-4-steps")]
     sel = ks >= 0.25 * spot
     if not np.any(sel):
         return out
@@ -245,6 +292,64 @@ def classify_cross(case):
     return [case["kind"], branch_of(case["model"])], True
 
 
+# ------------------------------------------------------------------------------------ one pricer object, many calls
+@st.composite
+def strat_reuse(draw, tier):
+    ops = draw(st.lists(st.tuples(st.sampled_from(["call", "put", "digital", "forward", "density", "cdf", "fft-call", "fft-put"]),
+                                  _f(0.05, 5.0), _f(0.5, 1.6)), min_size=2, max_size=6))
+    return {"model": draw(strat_model()), "ops": [list(o) for o in ops]}
+
+
+def body_reuse(case):
+    """a pricer is a pure function of (model, n, L, arguments): a result does not depend on the calls made before"""
+    from rpylib.numerical.cosmethod import COSPricer
+    from rpylib.numerical.fft import FFTPricer
+
+    spec = case["model"]
+    model = build_model(spec)
+    spot = spec["exp"]["spot"]
+    br = branch_of(spec)
+    shared = COSPricer(model, n=512, l=10)
+    shared_fft = None
+
+    def run(pricer, fftp, op, T, m):
+        ks = spot * np.array([0.8 * m, m, 1.25 * m])
+        if op in ("call", "put", "digital", "forward"):
+            return np.asarray(getattr(pricer, op)(ks, T), dtype=float)
+        if op == "density":
+            return np.asarray(pricer.density(time=T, s=ks), dtype=float)
+        if op == "cdf":
+            return np.asarray(pricer.cdf(time=T, x=ks), dtype=float)
+        return np.asarray(getattr(fftp, op[4:])(ks, T), dtype=float)
+
+    out = []
+    for i, (op, T, m) in enumerate(case["ops"]):
+        fresh_fft = None
+        if op.startswith("fft"):
+            if shared_fft is None:
+                shared_fft = FFTPricer(model)
+            fresh_fft = FFTPricer(model)
+        try:
+            got = run(shared, shared_fft, op, T, m)
+        except ValueError as ex:
+            if "sufficient condition" in str(ex):
+                out.append(Violation("LABEL:fft-damping-condition-not-met"))
+                continue
+            raise
+        want = run(COSPricer(model, n=512, l=10), fresh_fft, op, T, m)
+        if not np.array_equal(got, want, equal_nan=True):
+            out.append(Violation(f"C18/reuse/{'fft' if op.startswith('fft') else 'cos'}/result-depends-on-earlier-calls",
+                                 f"op #{i} {op}(T={T}) on the reused pricer {got} vs on a fresh one {want}; case={case}"))
+            break
+    return out
+
+
+def classify_reuse(case):
+    ts = {round(o[1], 6) for o in case["ops"]}
+    kinds = {("fft" if o[0].startswith("fft") else "cos") for o in case["ops"]}
+    return [branch_of(case["model"])] + sorted(kinds) + ["several-maturities" if len(ts) > 1 else "one-maturity"], len(ts) > 1
+
+
 SUBCHECKS = [
     SubCheck("cos-arbitrage-bounds", body_arbitrage, classify_arbitrage,
              rule="exponential model (BS, HEM, Merton, VG, CGMY in five branches up to y=1.8) x maturity in [0.1,3] x "
@@ -256,4 +361,9 @@ SUBCHECKS = [
              rule="BS: COS vs closed form (calls, puts, digital, forward, parity) and FFT; other families: COS vs FFT; "
                   "VG vs its CGMY(1/nu, lambda_m, lambda_p, 0) parametrisation",
              strategy=strat_cross, budget={"quick": 160, "thorough": 2400}, shards={"quick": 16, "thorough": 16}),
+    SubCheck("pricer-object-reuse", body_reuse, classify_reuse,
+             rule="one COSPricer / FFTPricer object used for a generated sequence of 2..6 calls (call, put, digital, "
+                  "forward, density, cdf; maturities in [0.05,5]) against a fresh pricer per call: bitwise equal; "
+                  "non-trivial = at least two different maturities",
+             strategy=strat_reuse, budget={"quick": 160, "thorough": 2000}, shards={"quick": 16, "thorough": 16}),
 ]
